@@ -911,7 +911,7 @@ Proof.
   unfold teq, front, vmap_spec1, stack0, reduce_axes, reduceop. cbn [shape at_ slice]. rewrite Hrs.
   cbn [rshape nth remove_at]. split; [reflexivity|].
   intros idx Hi. destruct idx as [|b r]; [inversion Hi|]. cbn [hd tl insert_at rext rmerge].
-  apply Hk. intro sub. reflexivity.
+  unfold rkernel_ext in Hk. apply Hk. intro sub. reflexivity.
 Qed.
 
 (* integer reduction kernel for the differential tie: position-weighted fiber sum *)
